@@ -49,7 +49,17 @@ int main(void)
     }
     /* phase 1: per-thread event extraction from the real code */
     u32 sev[NTHR][2]; for (u32 t = 0; t < NTHR; ++t) { sev[t][0] = in_range(0, 5); sev[t][1] = in_range(0, 5); }   /* every severity, also fatal */
-    for (u32 t = 0; t < NTHR; ++t) { cur = t; thread_body(KIND, nrec[t], recs[t][0], recs[t][1 % MAXREC], sev[t][0], sev[t][1]); }
+    for (u32 t = 0; t < NTHR; ++t) {
+        cur = t;
+#ifdef STALE
+        /* "stale view": every thread body is extracted from the INITIAL state of the sink's own (unguarded, mutable) statics, i.e. the
+           interleaving in which all threads read that state before any of them writes it.  Exact when those accesses are unsynchronised
+           (a data race); an over-approximation when they are ordered by a lock -- a counterexample of this variant is therefore only
+           reported after ThreadSanitizer has confirmed a data race inside nitro's code on the real build (plan.py: confirm_tsan) */
+        ir2c_reset_nitro_statics();
+#endif
+        thread_body(KIND, nrec[t], recs[t][0], recs[t][1 % MAXREC], sev[t][0], sev[t][1]);
+    }
     CHECK(!ev_overflow, "C09 (harness): event list large enough");
     /* phase 2: every interleaving */
     u8 dev[NTHR * MAXREC * RLEN + 2]; u32 dev_len = 0; u32 latched[NTHR]; u32 pc[NTHR]; u32* held = 0;
